@@ -22,6 +22,11 @@ fn main() {
         std::process::exit(2);
     }
     let id = args[1].to_uppercase();
+    if id == "C07SEQ" {
+        // child of C07: nothing may have been prepared in this process before
+        std::panic::set_hook(Box::new(|_| {}));
+        std::process::exit(props::c07::seq_child());
+    }
     let mut tier = match std::env::var("VERIF_TIER").as_deref() {
         Ok("thorough") => core::Tier::Thorough,
         _ => core::Tier::Quick,
@@ -54,8 +59,28 @@ fn main() {
             false
         }
     };
+    // build every lazily initialised table now, so that no execution has it built in the middle
+    let _ = subj::fsets();
+    let _ = subj::raw_j();
     let threads = std::env::var("VERIF_THREADS").ok().and_then(|s| s.parse().ok()).unwrap_or_else(|| std::thread::available_parallelism().map(|n| n.get()).unwrap_or(4));
     let ctx = core::Ctx { tier, seed, threads, t0: Instant::now(), inline_ok };
+    if id == "REPLAYTEST" {
+        // developer aid: inline execution under an inferred key vs isolated execution under the same key
+        let text = std::fs::read_to_string(std::env::var("VERIF_REPLAYTEST").unwrap()).unwrap();
+        let v: serde_json::Value = serde_json::from_str(&text).unwrap();
+        let t = v["text"].as_str().unwrap().to_string();
+        let c = props::c10::C10 { light: false, cli: false };
+        for round in 0..3 {
+            let key = sched::next_key().unwrap();
+            let mut o = core::Out::default();
+            core::guarded(&c, &t, &[], &mut o);
+            let a: Vec<String> = o.viols.iter().map(|x| format!("{}|{}", x.config, x.observed)).collect();
+            let (b, _) = core::replay_record(&c, &t, key);
+            let b: Vec<String> = b.iter().map(|x| format!("{}|{}", x.config, x.observed)).collect();
+            println!("round {round}: inline {} viols, isolated {} viols, equal={}", a.len(), b.len(), a == b);
+        }
+        return;
+    }
     if id == "BENCH" {
         let text = "0, CONSUMO, ILU, ELECTRICIDAD, 1, 3\n0, PRODUCCION, EL_INSITU, 3, 1\n2, PRODUCCION, EL_COGEN, 1, 1\n2, CONSUMO, COGEN, GASNATURAL, 2, 2\n1, CONSUMO, ACS, EAMBIENTE, 3, 3\n";
         let c = subj::parse(text).unwrap();
